@@ -68,6 +68,8 @@ pub struct GeneratorState<'a> {
     carry_flag_ok: bool,
     acc_in_use: bool,
     tmp_in_use: bool,
+    // A holds the value a call has just returned: N and Z are the callee's, not A's
+    acc_is_call_result: bool,
     whitespaces_regex: Regex,
     deferred_plusplus: Vec<(ExprType, usize, bool)>,
     pub current_bank: u32,
